@@ -68,6 +68,75 @@ def hashkey(v):
   return v
 
 
+def symkey(v):
+  """container key of a set element: symbolic ints get a syntactic key; set_locate keeps the elements of a set
+  pairwise distinct under the path condition, so the syntactic key never names the same value twice"""
+  if is_sym(v) and not isinstance(v, (SBytes, Union)):
+    return ("$sym", v.get_id())
+  return hashkey(v)
+
+
+def _is_symkey(hk):
+  return isinstance(hk, tuple) and len(hk) == 2 and hk[0] == "$sym"
+
+
+def set_locate(I_, ref, x, st, ctx, k_found, k_absent, node=None):
+  """find x in the set object ref: k_found(st, key) / k_absent(st).  Case split on every equality with a present
+  element that the path condition leaves open (int elements only; objects are located by identity)."""
+  data = st.obj(ref).data
+  if isinstance(x, Union):
+    return I_.split(x, st, lambda st2, y: set_locate(I_, ref, y, st2, ctx, k_found, k_absent, node))
+  if not (is_sym(x) or any(_is_symkey(hk) for hk in data)):
+    hk = hashkey(x)
+    return k_found(st, hk) if hk in data else k_absent(st)
+  if isinstance(x, SBytes):
+    raise Unsupported("symbolic bytes as set element")
+  keys = list(data.keys())
+  def step(st2, i):
+    if i == len(keys):
+      return k_absent(st2)
+    hk = keys[i]
+    e = st2.obj(ref).data[hk]
+    if not (is_numlike(e) and is_numlike(x)):
+      if isinstance(e, Ref) and isinstance(x, Ref) and e.oid == x.oid:
+        return k_found(st2, hk)
+      return step(st2, i + 1)
+    c = int_eq(x, e, st2)
+    return I_.branch(c, st2, lambda s_: k_found(s_, hk), lambda s_: step(s_, i + 1), "set-element")
+  return step(st, 0)
+
+
+def set_insert_all(I_, ref, items, st, ctx, k, node=None):
+  """ref |= items, one element at a time (each may fork)"""
+  items = list(items)
+  def step(st2, i):
+    if i == len(items):
+      return k(st2)
+    v = items[i]
+    def absent(st3):
+      st3.obj(ref).data[symkey(v)] = v
+      return step(st3, i + 1)
+    return set_locate(I_, ref, v, st2, ctx, lambda st3, hk: step(st3, i + 1), absent, node)
+  return step(st, 0)
+
+
+def set_remove_all(I_, ref, items, st, ctx, k, node=None):
+  items = list(items)
+  def step(st2, i):
+    if i == len(items):
+      return k(st2)
+    def found(st3, hk):
+      del st3.obj(ref).data[hk]
+      return step(st3, i + 1)
+    return set_locate(I_, ref, items[i], st2, ctx, found, lambda st3: step(st3, i + 1), node)
+  return step(st, 0)
+
+
+def new_set(I_, items, st, ctx, k, node=None):
+  ref = st.alloc("set", set, {})
+  return set_insert_all(I_, ref, items, st, ctx, lambda st2: k(st2, ref), node)
+
+
 def type_of(I_, v, st):
   """the Python type of a value (concrete class)"""
   if isinstance(v, bool) or is_symbool(v):
@@ -794,6 +863,8 @@ def values_eq(I_, a, b, st, ctx, k, node):
         ks = list(oa.data.keys())
         return seq_eq(I_, [oa.data[q][1] for q in ks], [ob.data[q][1] for q in ks], st, ctx, k, node)
       if oa.kind == "set" and ob.kind == "set":
+        if any(_is_symkey(hk) for hk in list(oa.data) + list(ob.data)):
+          raise Unsupported("equality of sets with symbolic elements")
         return k(st, set(oa.data.keys()) == set(ob.data.keys()))
       return k(st, a == b)
     r, o = (a, b) if isinstance(a, Ref) else (b, a)
@@ -1052,7 +1123,7 @@ def contains(I_, container, item, st, ctx, k, node):
     if o.kind in ("dict", "set"):
       if isinstance(item, Union):
         return I_.split(item, st, lambda st2, it: contains(I_, container, it, st2, ctx, k, node))
-      if is_sym(item) or isinstance(item, SBytes):
+      if is_sym(item) or isinstance(item, SBytes) or (o.kind == "set" and any(_is_symkey(hk) for hk in o.data)):
         keys = [(kv[0] if o.kind == "dict" else kv) for kv in o.data.values()]
         return any_eq(I_, item, keys, st, ctx, k, node)
       return k(st, hashkey(item) in o.data)
@@ -1507,7 +1578,7 @@ def getitem(I_, obj, idx, st, ctx, k, node=None):
           for j in range(n):
             g = z3.Or(zi == j, zi == j - n)
             alts.append((g, data[j]))
-          return k(st2, _union_of(I_, alts, st2))
+          return _k_union(I_, alts, st2, k)
         return I_.safety(st, ok, "safe.index@" + where, ExcVal(IndexError, ("list index out of range",), where),
                          ctx, cont)
       return I_.raise_exc(st, ctx, TypeError, "list indices must be integers", node)
@@ -1552,7 +1623,7 @@ def getitem(I_, obj, idx, st, ctx, k, node=None):
       ok = z3.And(zi >= -n, zi < n)
       def cont(st2):
         alts = [(z3.Or(zi == j, zi == j - n), obj[j]) for j in range(n)]
-        return k(st2, _union_of(I_, alts, st2))
+        return _k_union(I_, alts, st2, k)
       return I_.safety(st, ok, "safe.index@" + where, ExcVal(IndexError, ("tuple index out of range",), where),
                        ctx, cont)
     return I_.raise_exc(st, ctx, TypeError, "tuple indices must be integers or slices, not %s"
@@ -1580,7 +1651,7 @@ def getitem(I_, obj, idx, st, ctx, k, node=None):
         conds.append(idx == kk)
     ok = zor(*conds) if conds else False
     return I_.safety(st, ok, "safe.key@" + where, ExcVal(KeyError, ("key",), where), ctx,
-                     lambda st2: k(st2, _union_of(I_, alts, st2)))
+                     lambda st2: _k_union(I_, alts, st2, k))
   if not fully_concrete(idx):
     if isinstance(idx, Ref) or isinstance(idx, SBytes):
       if isinstance(obj, dict):
@@ -1593,11 +1664,25 @@ def getitem(I_, obj, idx, st, ctx, k, node=None):
     return I_.raise_exc(st, ctx, type(e), str(e), node)
 
 
+def _k_union(I_, alts, st, k):
+  """continue with the union of the feasible alternatives; when none is feasible the state itself is infeasible
+  (the guards cover the state's path condition): the path ends"""
+  try:
+    u = _union_of(I_, alts, st)
+  except _EmptyUnion:
+    return None
+  return k(st, u)
+
+
+class _EmptyUnion(Unsupported):
+  pass
+
+
 def _union_of(I_, alts, st):
   """alts: [(guard, value)] -> a single value: ite for scalars, else a guarded union"""
   feas = [(g, v) for g, v in alts if st.feasible(g)]
   if not feas:
-    raise Unsupported("empty union")
+    raise _EmptyUnion("empty union")
   # coalesce identical alternatives
   out = []
   for g, v in feas:
@@ -1628,7 +1713,7 @@ def dict_sym_lookup(I_, ref, key, st, ctx, k, node):
     if j >= len(items):
       ok = zor(*conds) if conds else False
       return I_.safety(st2, ok, "safe.key@" + where, ExcVal(KeyError, ("key",), where), ctx,
-                       lambda st3: k(st3, _union_of(I_, alts, st3)))
+                       lambda st3: _k_union(I_, alts, st3, k))
     kk, vv = items[j]
     def got(st3, r):
       return I_.truth(r, st3, ctx, lambda st4, t: step(j + 1, st4, alts + [(zbool(t) if not is_sym(t) else t, vv)],
